@@ -396,6 +396,7 @@ func protect(p *piece, f func()) {
 func stmtPieces(st *influxql.SelectStatement) []piece {
 	out := []piece{}
 	add := func(p piece) {
+		p.A, p.B = stripParens(p.A), stripParens(p.B) // compare operators and grouping (see stripParens)
 		p.OK = p.Err == "" && canonJSON(p.A) == canonJSON(p.B)
 		if p.OK {
 			p.A, p.B = nil, nil // keep the output small
